@@ -49,9 +49,11 @@ def case_run(case):
     full = text + '\nMaxTime = 3'
     D = Driver(timeout_ms=15000, max_paths=20000, max_seconds=BUDGET[0])
     box = 2000
-    d = z3.Real('D')
+    ds = [z3.Real('D_%d' % i) for i in range(4)]      # a moving exogenous path: the search must freeze it at its k=0 value
+    d = ds[0]
     syms = {n: z3.Real(n + '_0') for n in k0}
-    D.assume(d >= -box, d <= box)
+    for dv in ds:
+        D.assume(dv >= -box, dv <= box)
     for v in syms.values():
         D.assume(v >= -box, v <= box)
     out = {'case': case, 'viol': None, 'unknown': 0, 'outcomes': {}}
@@ -61,7 +63,7 @@ def case_run(case):
         es = EquationSolver(full, run_equation_reduction=True)
         es.ParameterInitialSteadyStateMaxTime = T
         es.ParameterInitialSteadyStateErrorToler = tol
-        es.Parser.Exogenous.append(('D', [SymReal(d)] * 4))
+        es.Parser.Exogenous.append(('D', [SymReal(dv) for dv in ds]))
         es.ExtractVariableList()
         es.SetInitialConditions()
         for n in k0:
@@ -81,13 +83,18 @@ def case_run(case):
                  es.Parser.MaxTime, es.MaxIterations, es.Parser.Err_Tolerance, len(es.Parser.Exogenous))
         if before != after and out['viol'] is None:
             out['viol'] = {'why': 'the search changed the initialised solver: %r -> %r' % (before, after), 'vals': None}
-        exo_ok = [symx.lift(v) == d for v in es.TimeSeries['D']]
+        exo_ok = [symx.lift(v) == dv for v, dv in zip(es.TimeSeries['D'], ds)] + [z3.BoolVal(len(es.TimeSeries['D']) == 4)]
         r, m = D.holds(z3.And(exo_ok))
         if r == 'sat' and out['viol'] is None:
-            out['viol'] = {'why': 'the search changed the exogenous path of the initialised solver', 'vals': None}
+            vals = {n: str(m.eval(v, model_completion=True)) for n, v in syms.items()}
+            for i, dv in enumerate(ds):
+                vals['D_%d' % i] = str(m.eval(dv, model_completion=True))
+            out['viol'] = {'why': 'the search changed the exogenous path of the initialised solver', 'vals': vals}
         if o != 'accepted':
             return o
         x0 = {v: symx.lift(es.TimeSeries[v][0]) for v in es.TimeSeries if v not in ('k', 't')}
+        # one more period with the exogenous inputs frozen at their k=0 values (as the property states)
+        es.TimeSeries['D'] = [es.TimeSeries['D'][0]] * 4
         try:
             es.SolveStep(1)
         except ValueError:
@@ -111,7 +118,8 @@ def case_run(case):
         r, m = D.holds(z3.And(props))
         if r == 'sat' and out['viol'] is None:
             vals = {n: str(m.eval(v, model_completion=True)) for n, v in syms.items()}
-            vals['D'] = str(m.eval(d, model_completion=True))
+            for i, dv in enumerate(ds):
+                vals['D_%d' % i] = str(m.eval(dv, model_completion=True))
             out['viol'] = {'why': 'accepted as steady, but one more period moves a variable by more than the tolerance', 'vals': vals}
         elif r == 'unknown':
             out['unknown'] += 1
@@ -146,16 +154,20 @@ vals = {k: float(F(v)) for k, v in %(vals)r.items()}
 text, gain, k0 = BLOCKS[name]
 es = EquationSolver(text + '\\nMaxTime = 3', run_equation_reduction=True)
 es.ParameterInitialSteadyStateMaxTime = T; es.ParameterInitialSteadyStateErrorToler = tol
-es.Parser.Exogenous.append(('D', [vals['D']] * 4))
+path = [vals['D_%%d' %% i] for i in range(4)]
+es.Parser.Exogenous.append(('D', list(path)))
 es.ExtractVariableList(); es.SetInitialConditions()
 for n in k0: es.TimeSeries[n][0] = vals[n]
 try:
     es.CalculateInitialSteadyState()
 except ValueError as e:
     print('search refused:', repr(e)); sys.exit(0)
-x0 = {v: es.TimeSeries[v][0] for v in es.TimeSeries if v not in ('k', 't')}
-es.SolveStep(1)
 bad = False
+if list(es.TimeSeries['D']) != path:
+    print('the search changed the exogenous path:', es.TimeSeries['D'], 'was', path); bad = True
+x0 = {v: es.TimeSeries[v][0] for v in es.TimeSeries if v not in ('k', 't')}
+es.TimeSeries['D'] = [path[0]] * 4
+es.SolveStep(1)
 for v, a in x0.items():
     if v not in gain: continue
     b = es.TimeSeries[v][1]
@@ -174,7 +186,7 @@ def run(tier, seed):
     selfcheck.run(chk)      # differential validation of the E2 value classes (trusted base) against plain floats
     cs = cases(tier)
     chk.bounds = {'cases': '%d: blocks %r x search horizon x tolerance {1e-4, 1e-2}' % (len(cs), sorted(BLOCKS)),
-                  'numeric domain': 'k=0 values of every stock/lag and the (constant) exogenous input symbolic reals in [-2000, 2000], both signs',
+                  'numeric domain': 'k=0 values of every stock/lag and a MOVING exogenous path (4 symbolic values) in [-2000, 2000], both signs',
                   'post': 'on acceptance |v(1)-v(0)| <= sum_stocks |c| * max(tol*|stock(0)|, tol, 2e-4) + 1e-6 for every non-excluded variable (c = one-step gain of the block); otherwise NoEquilibriumError/ValueError; '
                           'equations, parser lists, exogenous series, horizon and solver attributes unchanged'}
     chk.assumptions = ['slack mirrors the documented acceptance rule (absolute tolerance, relative tolerance, both-near-zero rule) and the block`s one-step gain, '
